@@ -44,11 +44,13 @@ class Obj:
 
 
 class Frame:
-    __slots__ = ('fn', 'blk', 'idx', 'regs', 'prev', 'dst', 'after', 'allocas')
+    __slots__ = ('fn', 'blk', 'idx', 'regs', 'prev', 'dst', 'after', 'allocas', 'fid')
+    _next = [0]
     def __init__(s, fn, blk, regs, dst, after=None):
         s.fn = fn; s.blk = blk; s.idx = 0; s.regs = regs; s.prev = None; s.dst = dst; s.after = after; s.allocas = []
+        Frame._next[0] += 1; s.fid = Frame._next[0]
     def clone(s):
-        f = Frame(s.fn, s.blk, dict(s.regs), s.dst, s.after); f.idx = s.idx; f.prev = s.prev; f.allocas = list(s.allocas); return f
+        f = Frame(s.fn, s.blk, dict(s.regs), s.dst, s.after); f.idx = s.idx; f.prev = s.prev; f.allocas = list(s.allocas); f.fid = s.fid; return f
 
 
 class State:
@@ -297,6 +299,11 @@ class Exec:
         if o is None: raise HarnessError('dangling object %s' % p.obj)
         if o.freed:
             s.add_obl(st, z3.BoolVal(False), 'use-after-free %s obj=%s' % (what, o.name)); return False
+        if z3.is_expr(o.size):
+            # object of symbolic size (e.g. the arena): bounds become an obligation over the size term
+            off = p.off if not isinstance(p.off, int) else z3.BitVecVal(p.off, 64)
+            s.add_obl(st, z3.And(z3.ULE(off, o.size), z3.ULE(z3.BitVecVal(size, 64), o.size - off)), 'in-bounds %s obj=%s (symbolic size)' % (what, o.name))
+            return True
         if isinstance(p.off, int):
             if p.off < 0 or (o.size is not None and p.off + size > o.size):
                 s.add_obl(st, z3.BoolVal(False), 'out-of-bounds %s obj=%s off=%d size=%d objsize=%s' % (what, o.name, p.off, size, o.size)); return False
@@ -333,7 +340,7 @@ class Exec:
         return False
     def materialise(s, st, o, size, t):
         """turn lazily-defaulted regions into explicit cells of this size (for symbolic indexing)"""
-        if o.default is None or o.size is None or o.size > 4096: return
+        if o.default is None or o.size is None or z3.is_expr(o.size) or o.size > 4096: return
         for off in range(0, o.size - size + 1, size):
             if off not in o.cells and not s._overlaps(o, off, size):
                 try:
@@ -527,9 +534,8 @@ class Exec:
         for k in [k for k, c in do.cells.items() if k < dst.off + n and dst.off < k + c[1]]:
             if not (dst.off <= k and k + do.cells[k][1] <= dst.off + n): raise Unsupported('memcpy partially overwrites a cell obj=%s' % (do.name,))
             del do.cells[k]
-        if covered != n:
-            if so.default is None:
-                raise HarnessError('memcpy from partially initialised region obj=%s off=%d n=%d covered=%d' % (so.name, src.off, n, covered))
+        if covered != n and so.default is not None:
+            # (uninitialised source bytes - padding, unions - stay uninitialised in the destination; reading them later is a harness error)
             # copy default lazily: destination default delegates to source default for uncovered bytes
             prev = do.default; sdef = so.default; lo, hi, delta = dst.off, dst.off + n, src.off - dst.off
             def dflt(ex, off, t, prev=prev, sdef=sdef, lo=lo, hi=hi, delta=delta):
@@ -671,7 +677,7 @@ class Exec:
         while i < len(blk) and blk[i].op == 'phi': i += 1
         return fr.idx == i
     def jump(s, st, fr, target):
-        key = (len(st.stack), fr.fn.name, fr.blk, target)
+        key = (fr.fid, fr.blk, target)      # per frame instance: repeated calls of a function do not accumulate
         c = st.loops.get(key, 0) + 1; st.loops[key] = c
         if c > s.loop_bound: raise UnwindBound('unwinding bound %d exceeded at %s %s->%s' % (s.loop_bound, fr.fn.name, fr.blk, target))
         fr.prev = fr.blk; fr.blk = target; fr.idx = 0
